@@ -73,6 +73,7 @@ class Ctx:
             "relpaths": knobs.get("relpaths", False),
             "enospc": knobs.get("enospc"),
             "short_reads": knobs.get("short_reads"),
+            "cpus": knobs.get("cpus"),
         }
         if knobs.get("preexist"):
             # a re-run: the output files are already there, longer than what will be written now
@@ -85,14 +86,14 @@ class Ctx:
         if knobs.get("devfd"):
             trailing = []
             for a in reversed(argv):
-                if a in files and a.startswith("/simfs/in"):
+                if a in files and gen.is_input_name(a):
                     trailing.append(a)
                 else:
                     break
             env["devfd_paths"] = trailing[::-1]
         if argv and argv[-1] == "-":
             # the (single) input file is fed to standard input
-            cands = sorted(p for p in files if p == "/simfs/in" or p.startswith("/simfs/in."))
+            cands = sorted(p for p in files if gen.is_input_name(p))
             if len(cands) != 1:
                 raise HarnessError(f"standard input wanted but input files are {cands}")
             env["stdin_path"] = cands[0]
